@@ -575,6 +575,8 @@ def jobs(tier):
     js += [{"decks": ["generated"], "n": 40 if tier == "thorough" else 12} for _ in range(8 if tier == "thorough" else 4)]
     js += [{"decks": ["generated|nonm"], "n": 40 if tier == "thorough" else 12} for _ in range(2)]
     js += [{"decks": ["generated|jumpdel"], "n": 40 if tier == "thorough" else 12} for _ in range(2)]
+    # the generated deck (hyperlinks, media, charts, notes) with its slide parts renamed
+    js += [{"decks": ["generated|" + how], "n": 40 if tier == "thorough" else 10} for how in ("rotate", "shift1", "gap")]
     return js
 
 
